@@ -298,6 +298,7 @@ def oracle(case, result):
                     calls = [e for e in log if e[0] in upstream and e[1] == i]
                     if calls:
                         if tmo is not None and _was_unpersisted(history, t, k, q):
+                            # the stale-stamp defect found by this check, repaired in /repo a58d69d
                             return ('TimedCacheManager.gc:unexpired-entry-recomputed-after-unpersist-and-reuse',
                                     f'step {t} {a}: partition {i} of node {q} was cached at {t_add} '
                                     f'(now {now}, timeout {tmo}) but upstream calls {calls[:4]} happened')
